@@ -204,8 +204,17 @@ def main():
     harness_error = None
     try:
         harness.run(ctx, res)
-    except Exception:
+    except Exception as e:
         harness_error = traceback.format_exc()
+        # an exception raised INSIDE the implementation (a frame under REPO) on a harness-generated input that the
+        # unchanged tree accepts is a behaviour change, not an infrastructure failure: the tie is broken
+        frames = [f for f in traceback.extract_tb(e.__traceback__) if os.path.abspath(f.filename).startswith(os.path.abspath(common.REPO) + os.sep)]
+        if frames:
+            f = frames[-1]
+            broken.append("implementation raised %s: %s at %s:%d (%s), not guarded by the harness" % (
+                type(e).__name__, str(e)[:200], os.path.relpath(f.filename, common.REPO), f.lineno, f.name))
+            res.notes.append(harness_error[-1500:])
+            harness_error = None
 
     # ---------------- 3. failing-input search when a proof or the tie broke --------------
     searched = False
